@@ -70,13 +70,14 @@ let to_labels (toks : tok list) : M.elabel list =
            | 'R' -> M.LRearm (n t.c) :: go r
            | 'D' -> M.LDel (n t.c) :: go r
            | 'C' -> M.LClosedStore (n t.c) :: go r
+           | 'G' -> M.LGrave (n t.c) :: go r
            | _ -> failwith "bad token") in
       let body = go b in
       (* accepts of this batch come first in the log anyway; the Wait goes before everything the loop does *)
       sends @ [M.LWait (List.map n members)] @ body) (batches [] [] toks)
 
 let conn_of_label = function
-  | M.LEvent (c, _) | M.LRearm c | M.LClosedStore c | M.LJobStart0 c | M.LDel c | M.LStreamDrop c | M.LFree c | M.LClientSend c | M.LClientClose c -> int_of_nat c
+  | M.LEvent (c, _) | M.LRearm c | M.LClosedStore c | M.LGrave c | M.LJobStart0 c | M.LDel c | M.LStreamDrop c | M.LFree c | M.LClientSend c | M.LClientClose c -> int_of_nat c
   | _ -> -1
 
 (* move the nearest preceding LRearm / LClosedStore of connection c behind position i *)
@@ -147,8 +148,10 @@ let eval case impl =
     let c15_other = verdict <> "ACCEPTED" || not streams_ok || not alloc_ok in
     let fails =
       (if c14 then [] else [("C14", "-")]) @
-      (if c15_other then [("C15", "-")] else if leak > 0 then [("C15", "F25")] else []) in
-    let model = if verdict = "ACCEPTED" && streams_ok && clients_ok && alloc_ok then impl
-      else verdict ^ (if streams_ok then "" else " streams-not-all-dropped") ^ (if alloc_ok then "" else Printf.sprintf " allocator-disagrees(recalloc=%d accepted=%d recfree=%d freed=%d)" reca accepted recf freed) in
+      (* (repaired finding F25: every accepted connection has ended, so every record must have been freed by the time
+         serve_epoll has returned) *)
+      (if c15_other || leak > 0 then [("C15", "-")] else []) in
+    let model = if verdict = "ACCEPTED" && streams_ok && clients_ok && alloc_ok && leak = 0 then impl
+      else verdict ^ (if leak > 0 then Printf.sprintf " records-not-freed=%d" leak else "") ^ (if streams_ok then "" else " streams-not-all-dropped") ^ (if alloc_ok then "" else Printf.sprintf " allocator-disagrees(recalloc=%d accepted=%d recfree=%d freed=%d)" reca accepted recf freed) in
     (model, fails)
   | [] -> ("?", [("C14", "-"); ("C15", "-")])
